@@ -233,7 +233,7 @@ fn resolve(p: &RawPred, schema: &TableSchema) -> BExpr {
                         Val::S(s) => s.chars().filter(|ch| *ch != '%' && *ch != '_' && *ch != '\\').take(if l % 3 == 0 { 66 } else { 2 }).collect(),
                         _ => String::new(),
                     };
-                    return BExpr::LikePrefix { col: c.name.clone(), prefix };
+                    return BExpr::LikePrefix { col: c.name.clone(), prefix, negated: false, ci: false };
                 }
             }
             BExpr::IsNull { col: pick_col(schema, *col).0 }
